@@ -19,3 +19,7 @@ def run(prog, chk):
     C.swap_handover(prog, chk, "C05.d")
     wit.pool_noncopyable(prog, chk, "C05.e")
     C.pool_layout(prog, chk, "C05.f")
+    # tree removals and rotations relink nodes instead of moving payloads: every relinked child keeps a correct parent pointer,
+    # otherwise later relinks cut live nodes out of the tree (they stay in the list but are no longer reachable / get freed twice)
+    C.parent_pairing(prog, chk, "C05.g", ("Map", "MultiMap"))
+    C.unlink_idiom(prog, chk, "C05.h", tuple(C.NODE))
